@@ -36,7 +36,7 @@ GDB_WORLD = ('C09', 'C10', 'C15')
 
 
 def load_prop(pid):
-    if pid.upper() in GDB_WORLD:
+    if pid.upper() in GDB_WORLD or os.environ.get('VERIF_WORLD') == 'gdb':
         # the fake `gdb` module must be importable before the tool is (core.util.check_gdb())
         fake = os.path.join(VERIF, 'sim', 'fakegdb')
         if fake not in sys.path:
@@ -248,7 +248,8 @@ def worker_main(argv):
                     v_out = v
                 emit({'type': 'violation', 'index': idx, 'seed': seed, 'key': k, 'violation': v_out,
                       'scenario': small, 'minimised_from': {f: len(sc.get(f, [])) for f in ('intents', 'faults')},
-                      'hashseed': os.environ.get('PYTHONHASHSEED'), 'original_scenario': sc, 'original_violation': v,
+                      'hashseed': os.environ.get('PYTHONHASHSEED'), 'world': os.environ.get('VERIF_WORLD') or None,
+                      'original_scenario': sc, 'original_violation': v,
                       'history': {'indices': history, 'base_seed': a.seed, 'tier': a.tier}})
             if len(seen_keys) >= (1 if a.tier == 'quick' else 3):
                 break
@@ -270,8 +271,9 @@ def known_findings():
     return json.load(open(p)).get('findings', [])
 
 
-def spawn(prop_id, extra, hashseed, repo):
+def spawn(prop_id, extra, hashseed, repo, world=None):
     env = dict(os.environ)
+    env['VERIF_WORLD'] = world or ''
     env['PYTHONHASHSEED'] = str(hashseed)
     env['PYTHONDONTWRITEBYTECODE'] = '1'
     env['VERIF_REPO'] = repo
@@ -336,7 +338,7 @@ def check_main(argv):
     if a.replay:
         rp = json.load(open(a.replay))
         p = spawn(pid, ['--replay', a.replay, '--seed', '0'] + (['--digest-only'] if rp.get('needs_process_history') else []),
-                  rp.get('hashseed', 0), repo)
+                  rp.get('hashseed', 0), repo, world=rp.get('world'))
         outs, errors = collect([p], 1800)
         if errors:
             print('HARNESS-ERROR ' + '; '.join(errors))
@@ -359,6 +361,7 @@ def check_main(argv):
     count = a.runs or prop.RUNS.get(tier, 0)
     budget = a.budget or (float(os.environ.get('VERIF_BUDGET_S', prop.BUDGET_S.get(tier, 0) if hasattr(prop, 'BUDGET_S') else 0)) if tier == 'thorough' else 0)
     procs = []
+    gdb_lanes = tuple(getattr(prop, 'GDB_LANES', ()))      # lanes of a log-world property that run its GDB-world variant
     # main batch: lane k handled by process k % nproc ... one process per lane keeps hashseed per lane
     for lane in range(LANES):
         extra = ['--tier', tier, '--seed', str(base), '--lane', str(lane), '--lanes', str(LANES)]
@@ -366,7 +369,7 @@ def check_main(argv):
             extra += ['--budget', str(budget)]
         else:
             extra += ['--count', str(count)]
-        procs.append(spawn(pid, extra, lane_hashseed(base, lane), repo))
+        procs.append(spawn(pid, extra, lane_hashseed(base, lane), repo, world='gdb' if lane in gdb_lanes else None))
     wall = (budget + 900) if budget else getattr(prop, 'QUICK_WALL_S', 1500)
     outs, errors = collect(procs, wall)
     # determinism self-test: first D indices again, same hashseed (exact) and different hashseed (canonical)
@@ -386,8 +389,8 @@ def check_main(argv):
             groups.setdefault(i % LANES, []).append(i)
         for lane, ii in sorted(groups.items()):
             dprocs.append(spawn(pid, ['--tier', tier, '--seed', str(base), '--indices', ','.join(map(str, ii)),
-                                      '--digest-only'], lane_hashseed(base, lane), repo))
-        ii2 = idxs[:D2]
+                                      '--digest-only'], lane_hashseed(base, lane), repo, world='gdb' if lane in gdb_lanes else None))
+        ii2 = [i for i in idxs if i % LANES not in gdb_lanes][:D2]
         if ii2:
             dprocs.append(spawn(pid, ['--tier', tier, '--seed', str(base), '--indices', ','.join(map(str, ii2)),
                                       '--digest-only'], lane_hashseed(base, 99, 1), repo))
@@ -450,12 +453,12 @@ def check_main(argv):
             continue
         path = os.path.join(VERIF, 'replays', '%s-%d.json' % (pid, v['seed']))
         rp = {'format': 1, 'property': pid, 'key': v['key'], 'signature': v['violation']['sig'],
-              'seed': v['seed'], 'hashseed': int(v['hashseed'] or 0), 'scenario': v['scenario'],
+              'seed': v['seed'], 'hashseed': int(v['hashseed'] or 0), 'world': v.get('world'), 'scenario': v['scenario'],
               'observed': v['violation'].get('detail'), 'repo_head': head, 'repo_dirty': dirty,
               'minimised_from': v['minimised_from']}
         json.dump(rp, open(path, 'w'), indent=1, default=str, ensure_ascii=True)
         # confirm in a fresh interpreter
-        p = spawn(pid, ['--replay', path, '--seed', '0'], rp['hashseed'], repo)
+        p = spawn(pid, ['--replay', path, '--seed', '0'], rp['hashseed'], repo, world=rp.get('world'))
         routs, rerrs = collect([p], 600)
         keys = [vkey(x) for r in (routs[0] if routs else []) if r.get('type') == 'replay' for x in r['violations']]
         note = ''
@@ -465,7 +468,7 @@ def check_main(argv):
             rp['original_scenario'] = v['original_scenario']
             rp['needs_process_history'] = True
             json.dump(rp, open(path, 'w'), indent=1, default=str)
-            p = spawn(pid, ['--replay', path, '--seed', '0', '--digest-only'], rp['hashseed'], repo)
+            p = spawn(pid, ['--replay', path, '--seed', '0', '--digest-only'], rp['hashseed'], repo, world=rp.get('world'))
             routs, rerrs = collect([p], 1800)
             keys = [vkey(x) for r in (routs[0] if routs else []) if r.get('type') == 'replay' for x in r['violations']]
             note = (' [needs process history: reproduces only after the %d earlier sessions of its worker; state leaks '
